@@ -37,17 +37,24 @@ def _exits(block):
     return False
 
 
+def _lit(test, pol):
+    """(test, polarity) with leading `not`s moved into the polarity: `not A` false is `A` true."""
+    while isinstance(test, ast.UnaryOp) and isinstance(test.op, ast.Not):
+        test, pol = test.operand, not pol
+    return (test, pol)
+
+
 def _continuing(st):
     """Conditions that hold after an `if` statement on every path that falls through it, as a conjunction of (test, polarity):
     `if A: exit` gives not A; `if A: exit / elif B: exit / elif C: ...` gives not A and not B (and whatever the last arm gives);
     `if A: ... else: exit` gives A.  () when nothing can be said."""
     if _exits(st.body):
-        out = ((st.test, False),)
+        out = (_lit(st.test, False),)
         if len(st.orelse) == 1 and isinstance(st.orelse[0], ast.If):
             out = out + _continuing(st.orelse[0])
         return out
     if st.orelse and _exits(st.orelse):
-        return ((st.test, True),)
+        return (_lit(st.test, True),)
     return ()
 
 
@@ -59,8 +66,8 @@ def walk(func_node):
             c = conds + extra
             yield st, Ctx(c, loops, block, i, parent)
             if isinstance(st, ast.If):
-                yield from rec(st.body, c + ((st.test, True),), loops, st)
-                yield from rec(st.orelse, c + ((st.test, False),), loops, st)
+                yield from rec(st.body, c + (_lit(st.test, True),), loops, st)
+                yield from rec(st.orelse, c + (_lit(st.test, False),), loops, st)
                 extra = extra + _continuing(st)
             elif isinstance(st, (ast.For, ast.While)):
                 yield from rec(st.body, c, loops + (st,), st)
